@@ -257,7 +257,7 @@ def worker_main(argv):
         try:
             spec = make_spec(prop, seed, tier)
             res, viols = run_spec(prop, spec)
-            d = summarize(prop, spec, res, viols, want_sample=(i % 400 == 0))
+            d = summarize(prop, spec, res, viols, want_sample=(i % 200 == 0))
             if want_digest:
                 d["digest"] = harness.digest_of(res)
         except Exception as e:  # harness bug: reported, never a pass
